@@ -16,7 +16,9 @@
        duplication; first deliveries in source order unless the writes commute), the rows
        of hash slot 12 outside the slot-local migration table are the same on both sides;
      - a delivery batch consisting only of deltas delivered before leaves the target's
-       rows of hash slot 12 unchanged and is answered ok;
+       rows of hash slot 12 unchanged and is answered ok; every delta answered ok has its
+       durable applied-delta record on the target after the batch (also when the batch carried
+       other commands and its commit fell back to one command per batch);
      - after an accepted fence and before the switch the source answers every ordinary
        command for hash slot 12 with hash_slot_fenced; before the fence never;
      - a slot that does not own hash slot 12 refuses ordinary commands for it (ApplyBatch
@@ -38,8 +40,8 @@ Inductive step :=
 | STgt (cmds : list entry) (o : bobs)
 | SStartDelta
 | SSnapshot (ok : bool)
-| SDeliver (idxs : list N) (o : bobs) (before after : N)
-| SReplay (idxs : list N) (o : bobs) (before after : N)
+| SDeliver (idxs : list N) (extra : list entry) (o : bobs) (before after : N) (applied : list N)
+| SReplay (idxs : list N) (o : bobs) (before after : N) (applied : list N)
 | SRestartTgt
 | SSwitch (complete : bool) (src_data tgt_data : N).
 
@@ -113,6 +115,10 @@ Definition outbox_indexes (s : store) : list N :=
 
 Definition nl_eqb (a b : list N) : bool := list_eqb N.eqb a b.
 
+(* the durable applied-delta records of the migrating hash slot for the source slot *)
+Definition applied_indexes (s : store) : list N :=
+  map dk_idx (filter (fun k => (dk_hs k =? HS_MIG) && (dk_src k =? SRC_SLOT)) (st_applied s)).
+
 (* one step: the new system, or None when the observation is not reproduced *)
 Definition sys_step (y : sys) (st : step) : option sys :=
   match st with
@@ -138,13 +144,19 @@ Definition sys_step (y : sys) (st : step) : option sys :=
       if ok then Some (Sys (y_src y) (y_src_cfg y) (y_src_idx y) (import_hs (y_tgt y) (y_src y) HS_MIG)
                            (y_tgt_cfg y) (y_tgt_idx y) (y_fwd y) (y_log y))
       else None
-  | SDeliver idxs o _ _ | SReplay idxs o _ _ =>
-      let ok_list := match st with
-                     | SReplay _ _ _ _ => nl_eqb idxs (outbox_indexes (y_src y))
-                     | _ => true end in
+  | SDeliver idxs extra o _ _ applied =>
+      (* the apply_delta commands, then ordinary commands of the same target batch *)
+      let log := delta_cmds y (y_tgt_idx y + 1) idxs ++ to_fcmds (y_tgt_idx y + 1 + N.of_nat (length idxs)) extra in
+      let '(t', r) := fsm_apply_batch (y_tgt_cfg y) (y_tgt y) log in
+      if out_matches r (bo_out o) && (st_applied_index t' =? bo_applied o) && nl_eqb (applied_indexes t') applied
+      then Some (Sys (y_src y) (y_src_cfg y) (y_src_idx y) t' (y_tgt_cfg y)
+                     (y_tgt_idx y + N.of_nat (length idxs) + N.of_nat (length extra)) (y_fwd y) (y_log y))
+      else None
+  | SReplay idxs o _ _ applied =>
       let log := delta_cmds y (y_tgt_idx y + 1) idxs in
       let '(t', r) := fsm_apply_batch (y_tgt_cfg y) (y_tgt y) log in
-      if ok_list && out_matches r (bo_out o) && (st_applied_index t' =? bo_applied o)
+      if nl_eqb idxs (outbox_indexes (y_src y)) && out_matches r (bo_out o) && (st_applied_index t' =? bo_applied o)
+         && nl_eqb (applied_indexes t') applied
       then Some (Sys (y_src y) (y_src_cfg y) (y_src_idx y) t' (y_tgt_cfg y) (y_tgt_idx y + N.of_nat (length idxs))
                      (y_fwd y) (y_log y))
       else None
@@ -184,6 +196,13 @@ Definition mon0 : mon := Mon false false [] None None.
 
 Definition all_ok (o : bobs) : bool :=
   match bo_out o with BOk rs => forallb (fun r => fst r =? R_OK) rs | BFatal _ => false end.
+
+(* the first n results (the apply_delta commands of a delivery batch) are all ok *)
+Definition deltas_ok (o : bobs) (n : nat) : bool :=
+  match bo_out o with
+  | BOk rs => Nat.leb n (length rs) && forallb (fun r => fst r =? R_OK) (firstn n rs)
+  | BFatal _ => false
+  end.
 
 (* source batch before the switch: fenced-ness of every ordinary command for hash slot 12, in
    order; a fence command answered ok turns the fence on for the commands after it *)
@@ -240,11 +259,14 @@ Definition mon_step (m : mon) (st : step) : option mon :=
         | BOk _ => None
         end
       else Some (Mon (m_fenced m) (m_switched m) (m_delivered m) (m_src_digest m) (Some (bo_digest o)))
-  | SDeliver idxs o before after | SReplay idxs o before after =>
+  | SDeliver idxs _ o before after applied | SReplay idxs o before after applied =>
       let all_dup := forallb (fun i => memN i (m_delivered m)) idxs in
-      if all_dup && negb (all_ok o && (before =? after)) then None
+      let dok := deltas_ok o (length idxs) in
+      if all_dup && negb (dok && (before =? after)) then None
+      (* a delta answered ok has its durable applied record on the target *)
+      else if dok && negb (forallb (fun i => memN i applied) idxs) then None
       else
-        let d := if all_ok o then m_delivered m ++ idxs else m_delivered m in
+        let d := if dok then m_delivered m ++ idxs else m_delivered m in
         Some (Mon (m_fenced m) (m_switched m) d (m_src_digest m) (Some (bo_digest o)))
   | SSwitch complete s t =>
       if complete && negb (s =? t) then None
